@@ -306,6 +306,79 @@ def lengths(eng: Engine, ctx: Ctx, rid: str) -> int:
     return n
 
 
+# ----------------------------------------------------------------------------- D7 pinned layouts / field classes
+def layout_sequence(T, ident, d):
+    """Flattened decoding order with group structure: F:key, G:count{ ... }, O:flag=value{ ... }."""
+    out = []
+
+    def rec(dd):
+        if not isinstance(dd, dict):
+            out.append("?:illformed")
+            return
+        for k, v in dd.items():
+            if isinstance(v, str):
+                out.append(f"F:{k}")
+            elif isinstance(v, tuple) and len(v) == 2 and isinstance(v[1], dict):
+                g = v[0]
+                out.append((f"O:{g[0]}={g[1]!r}" if isinstance(g, tuple) and len(g) == 2 else f"G:{g}") + "{")
+                rec(v[1])
+                out.append("}")
+            else:
+                out.append(f"?:{k}")
+
+    rec(d)
+    return out
+
+
+def field_class(T, key):
+    tc = T.type_consts
+    f = T.fields.get(key)
+    if not (isinstance(f, tuple) and len(f) == 4):
+        return None
+    cls = {tc["UINT"]: "unsigned", tc["BIT"]: "unsigned", tc["BITX"]: "unsigned", tc["INT"]: "int", tc["INTS"]: "sign-magnitude", tc["CHA"]: "char", tc["STR"]: "str",
+           tc["PRN"]: "derived", tc["CELPRN"]: "derived", tc["CELSIG"]: "derived"}.get(f[0], str(f[0]))
+    res = f[2]
+    res = 1 if res in (0, 1) else res
+    return [cls, f[1], res]
+
+
+def layouts(eng: Engine, ctx: Ctx, rid: str) -> int:
+    ctx.rule(rid, "the field sequence (with group structure) of every definition and the decoding class, width and resolution of every data field equal the pinned "
+                  "tables of the standards (oracle/layouts.json, oracle/fields.json): decides transpositions, type and resolution changes that leave the bit length unchanged")
+    T = eng.tables
+    lay = oracle("layouts.json")["layouts"]
+    flds = oracle("fields.json")["fields"]
+    n = 0
+    for tname, ident, d, prov in T.definitions():
+        if ident not in lay:
+            continue  # a definition the oracle does not know (new message type): unconstrained by this rule
+        n += 1
+        got = layout_sequence(T, ident, d)
+        want = lay[ident]
+        if got == want:
+            ctx.ok(rid, ident, "field sequence", found=f"{len(got)} items", **_where(eng, prov))
+        else:
+            i = next((k for k, (a, b) in enumerate(zip(got, want)) if a != b), min(len(got), len(want)))
+            ctx.bad(rid, ident, "field sequence", expected=f"item {i}: {want[i] if i < len(want) else '<end>'} (…{' '.join(want[max(0, i - 2):i + 3])}…)",
+                    found=f"item {i}: {got[i] if i < len(got) else '<end>'} (…{' '.join(got[max(0, i - 2):i + 3])}…)", **_where(eng, prov))
+    missing = sorted(set(lay) - {ident for _, ident, _, _ in T.definitions()})
+    ctx.check(not missing, rid, "definition tables", "every pinned message type is still defined", expected=f"{len(lay)} definitions", found=f"missing {missing[:5]}" if missing else "all present",
+              file=eng.repo.relpath("rtcmtypes_get"), line=0)
+    fprov = T.fields.prov if hasattr(T.fields, "prov") else {}
+    for key, want in flds.items():
+        got = field_class(T, key)
+        if got is None:
+            continue  # undefined / ill-typed descriptors are reported by D2
+        n += 1
+        ok = got[0] == want[0] and got[1] == want[1] and (got[2] == want[2] or (isinstance(got[2], (int, float)) and isinstance(want[2], (int, float)) and float(got[2]) == float(want[2])))
+        pv = fprov.get(key, (None, 0))
+        if ok:
+            ctx.ok(rid, f"RTCM_DATA_FIELDS[{key!r}]", "decoding class, width, resolution", found=str(got), **_where(eng, pv))
+        else:
+            ctx.bad(rid, f"RTCM_DATA_FIELDS[{key!r}]", "decoding class, width, resolution", expected=str(want), found=str(got), **_where(eng, pv))
+    return n
+
+
 # ----------------------------------------------------------------------------- D6 siblings
 def _first_block(d):
     for k, v in d.items():
